@@ -264,11 +264,6 @@ func genDictCase(t *rapid.T) dictCase {
 			q.HasEnd = true
 			q.End = spec.B(rapid.SampledFrom(boundPool).Draw(t, ql+"end"))
 		}
-		if q.HasEnd && q.End == "" {
-			// an empty end key is indistinguishable from "no end bound" for the
-			// FST library (nil and empty slices are the same bound): not generated
-			q.HasEnd = false
-		}
 		if q.HasStart && q.HasEnd && !(string(q.Start) < string(q.End)) {
 			// keep the range well-formed: start < end
 			if string(q.Start) == string(q.End) {
